@@ -523,6 +523,17 @@ def fold_known_flags(fn: ast.AST) -> int:
             if isinstance(st, FUNC):
                 out.append(st)
                 continue
+            if known and isinstance(st, ast.Return) and st.value is not None:
+                class _Flags(ast.NodeTransformer):
+                    def visit_Lambda(self, n):
+                        return n
+
+                    def visit_Name(self, n):
+                        if isinstance(n.ctx, ast.Load) and n.id in known:
+                            count[0] += 1
+                            return ast.copy_location(ast.Constant(value=known[n.id]), n)
+                        return n
+                st.value = _Flags().visit(st.value)
             if consts and isinstance(st, (ast.Return, ast.Assign, ast.Expr)) and not (stored(st) & set(consts)):
                 tr = IndexSubst(consts)
                 tr.visit(st)
@@ -741,8 +752,9 @@ def sink_loop_exit(fn: ast.AST) -> int:
                                 if not flagged(h.body):
                                     return False
                     return True
-                if tail and flags and 1 <= len(brk) <= 4 and not in_try and _always_leaves(tail) and size <= 80 and not any(isinstance(x, FUNC) for t in tail for x in ast.walk(t)) \
-                        and flagged(st.body):
+                lone_return = len(tail) == 1 and isinstance(tail[0], ast.Return) and size <= 40     # `break` then nothing but `return E`: the break is that return
+                if tail and (flags or lone_return) and 1 <= len(brk) <= 4 and not in_try and _always_leaves(tail) and size <= 80 and not any(isinstance(x, FUNC) for t in tail for x in ast.walk(t)) \
+                        and (lone_return or flagged(st.body)):
                     st.body = replace_breaks(st.body, tail)
                     count[0] += 1
         return stmts
